@@ -121,8 +121,14 @@ def make_probe(desc, k):
         _, kind, c, bad, where = desc
         decl = A.Declare(V(x), seq_expr(kind, c))
         be = {"null": A.Null(), "str": S("0"), "bool": A.Bool(True), "list": A.lst(I(0)), "obj": A.obj(), "fn": V("print")}[bad]
-        e = {"index": A.Index(V(x), be), "start": A.RangeIndex(V(x), be, None), "end": A.RangeIndex(V(x), I(0), be)}[where]
-        return {"stmts": [decl, A.Declare(V("r%d" % k), e)], "expect": None, "tag": "non_int_" + where, "what": "%s with %s as %s" % (kind, bad, where)}
+        pre_b = []
+        if where.endswith("_var"):
+            # the offending value reaches the index / bound through a variable
+            pre_b = [A.Declare(V("bv%d" % k), be)]
+            be = V("bv%d" % k)
+        w = where[:-4] if where.endswith("_var") else where
+        e = {"index": A.Index(V(x), be), "start": A.RangeIndex(V(x), be, None), "end": A.RangeIndex(V(x), I(0), be), "both": A.RangeIndex(V(x), be, A.clone(be))}[w]
+        return {"stmts": [decl] + pre_b + [A.Declare(V("r%d" % k), e)], "expect": None, "tag": "non_int_" + where, "what": "%s with %s as %s" % (kind, bad, where)}
     if form == "set":
         _, c, i = desc
         n = len(c)
@@ -316,7 +322,7 @@ def run(rep, tier):
                 descs.append(("range", kind, c, a, b))
     for kind, c in [("list", (1, 2, 3)), ("str", ("a", "é"))]:
         for bad in ("null", "str", "bool", "list", "obj", "fn"):
-            for where in ("index", "start", "end"):
+            for where in ("index", "start", "end", "index_var", "start_var", "end_var", "both_var"):
                 descs.append(("badindex", kind, c, bad, where))
     lists = [c for kind, c in seqs(tier) if kind == "list"]
     for c in lists:
